@@ -220,7 +220,7 @@ func (c *CheckCtx) selfTest(items []PlanItem) bool {
 	}
 	seenScn := map[string]bool{}
 	for _, it := range items {
-		if seenScn[it.Scn.Name] {
+		if seenScn[it.Scn.Name] || len(seenScn) >= 24 {
 			continue
 		}
 		seenScn[it.Scn.Name] = true
@@ -229,7 +229,7 @@ func (c *CheckCtx) selfTest(items []PlanItem) bool {
 	p0.Run()
 	seenScn = map[string]bool{}
 	for _, it := range items {
-		if seenScn[it.Scn.Name] {
+		if seenScn[it.Scn.Name] || len(seenScn) >= 24 {
 			continue
 		}
 		seenScn[it.Scn.Name] = true
@@ -354,6 +354,9 @@ func (c *CheckCtx) confirm(v *Violation, scn *Scenario) (bool, *Result) {
 		p.Submit(&Job{Prop: c.Prop, Scn: scn, Prefix: v.Chosen, Replay: true, Trace: i == 4})
 	}
 	p.Run()
+	if os.Getenv("MCX_DEBUG") != "" {
+		fmt.Fprintf(os.Stderr, "confirm %s on %s: hits=%d crashes=%d prefixlen=%d\n", v.Sig, scn.Name, hits, crashes, len(v.Chosen))
+	}
 	return hits == 5 || crashes == 5, res
 }
 
@@ -460,9 +463,6 @@ func (c *CheckCtx) finish(pd *propDef) int {
 
 func (c *CheckCtx) writeEvidence(pd *propDef, nviol int, vlist []map[string]any) {
 	cov := map[string]any{}
-	for k, v := range c.extra {
-		cov[k] = v
-	}
 	if pd.Plan != nil {
 		cov["evaluations"] = c.execs
 		cov["distinct_nontrivial"] = len(c.nontriv)
@@ -472,7 +472,11 @@ func (c *CheckCtx) writeEvidence(pd *propDef, nviol int, vlist []map[string]any)
 		cov["divergences"] = c.diverg
 		cov["executions_with_stuck_goroutines"] = c.stuckEx
 		cov["max_choice_points"] = c.maxPts
-		cov["scenarios"] = c.perScn
+		if len(c.perScn) <= 80 {
+			cov["scenarios"] = c.perScn
+		} else {
+			cov["scenario_count"] = len(c.perScn)
+		}
 		var ss []any
 		for _, s := range c.samples {
 			ss = append(ss, s)
@@ -481,6 +485,9 @@ func (c *CheckCtx) writeEvidence(pd *propDef, nviol int, vlist []map[string]any)
 			ss = append(ss, "no non-trivial execution")
 		}
 		cov["samples"] = ss
+	}
+	for k, v := range c.extra {
+		cov[k] = v
 	}
 	if _, ok := cov["rule"]; !ok {
 		cov["rule"] = pd.Rule
